@@ -15,6 +15,8 @@
 //!   * a source name that is unique in its scope and not reserved is printed verbatim.
 use crate::util::*;
 use rssl::ir;
+mod astwalk;
+mod res;
 use rssl::ir::name_generator::{NameMap, NameSymbol};
 use std::collections::{BTreeMap, BTreeSet, HashMap, HashSet};
 
@@ -1436,6 +1438,14 @@ pub fn run(args: &Args, out: &mut Out) {
             let f: Vec<&str> = line.split('\t').collect();
             if f.len() == 3 && f[0] == "C15.names" {
                 run_case(f[1], f[2], &mut cx, out);
+            } else if f.len() == 3 && f[0] == "C15.res" {
+                let Ctx { tables, hist } = &mut cx;
+                let mut rcx = res::RCtx { real: &tables.real, spec: &tables.spec, hist };
+                res::run_case(f[1], f[2], &mut rcx, out);
+            } else if f.len() == 3 && f[0] == "C15.rshow" {
+                res::show(&line, f[1], f[2], out);
+            } else if f.len() == 3 && f[0] == "C15.raw" {
+                res::raw(&line, f[1], f[2], out);
             } else if f.len() == 3 && f[0] == "C15.src" {
                 // reproducer aid: raw RSSL source (\n escaped) -> emitted text; answered `unsupported` by the model
                 let src = f[2].replace("\\n", "\n");
@@ -1485,10 +1495,18 @@ pub fn run(args: &Args, out: &mut Out) {
             run_case(t, &prog, &mut cx, out);
         }
     }
+    // (3) resources, pipelines and generated declarations on all four target configurations
+    let (rswept, rn) = {
+        let Ctx { tables, hist } = &mut cx;
+        let mut rcx = res::RCtx { real: &tables.real, spec: &tables.spec, hist };
+        res::generate(args, &special, &mut rcx, out)
+    };
     out.stat(&format!(
-        "{{\"sweep_cases\":{},\"random_programs\":{},\"special_names\":{},\"hist\":{}}}",
+        "{{\"sweep_cases\":{},\"random_programs\":{},\"res_sweep_cases\":{},\"res_random_programs\":{},\"special_names\":{},\"hist\":{}}}",
         swept,
         n,
+        rswept,
+        rn,
         special.len(),
         cx.hist.json()
     ));
